@@ -160,6 +160,7 @@ def _mk_pdf(R, base, lo, hi, how):
         w.equal("mean", tp.get_mean(), mean[:, None])
         w.equal("variance", tp.get_variance(), (moment_spec(w, par, J, 2) / J[0] - mean ** 2)[:, None])
         w.equal("integrate[x]", tp.integrate("x"), mean[:, None])
+        w.equal("std^2=variance", tp.get_std() ** 2, tp.get_variance())
     return ob
 
 
@@ -211,7 +212,7 @@ def _register():
     F = ["experimental.truncated_measure.TruncatedGaussianMeasure." + m for m in
          ("__post_init__", "_check_limits", "__call__", "integrate", "_expectation_integral", "integral", "_expectation_x", "integrate_x",
           "_get_variance", "integrate_x_pow_2", "_get_moment", "integrate_x_pow_k", "get_density")]
-    FP = ["experimental.truncated_measure.TruncatedGaussianPDF." + m for m in ("__post_init__", "__call__", "get_mean", "get_variance")]
+    FP = ["experimental.truncated_measure.TruncatedGaussianPDF." + m for m in ("__post_init__", "__call__", "get_mean", "get_variance", "get_std")]
     for R in ("R", 1):
         for base in ("measure", "density"):
             for lo in LIMS:
